@@ -56,6 +56,10 @@ CHECKS = {
    text="Wire.tla gives the byte-level layout of StackInputs / StackOutputs / Kernel / ProgramInfo; TLC enumerates byte strings (declared counts x element encodings 0, 1, p-1, p, 2^64-1 x tail truncations x trailing bytes), checks ReEncode and PrefixesRejected on the model, and every string is fed to the real decoder: never a panic, an accepted value must re-serialise to bytes that decode to an equal value, and every decoded statement part is handed to verify() with a valid proof, which must not panic; integer constructors must reject exactly the non-canonical values. Proofs and program / module ASTs are covered by structured mutation of valid encodings (systematic header bytes, bit flips, truncations, length bytes) under the same monitor.",
    note="Model checking for the small containers; the large formats are monitor-only (exploration). Whether a decoder accepts what the model calls malformed is recorded, not judged. Known finding KF-C19-winter-proof-header (panics inside the winter-air dependency) is reported as KNOWN-FINDING.",
    tech="TLA+ byte-level wire model; TLC-enumerated byte strings replayed on the decoders + mutation monitor for large formats", ref="DESIGN.md §4 C19"),
+ "C11": dict(cat="model_checking",
+   text="Assembler.tla models one assembler instance at the granularity of its methods (module provider, procedure cache with ids / aliases / callsets, per-compilation context, a failed compilation keeping what it inserted) next to a declarative layer (name resolution through re-exports, pasted exec bodies, statically reachable call / syscall / procref targets, validity). TLC explores every history of library additions and compilations (failing ones included) up to length 4 over hand-built and random universes of modules, kernels and programs and monitors HistoryIndependence (= result of a freshly configured instance) and conformance to the declarative layer (success iff valid, prescribed root, code-block table containing every static target). Every maximal history is replayed on one real Assembler in two build profiles: outcome as prescribed, never a panic; hash and kernel equal to a freshly configured real instance; equal prescribed root terms <=> one real MAST root; table statically closed; the (straight-line) program executed without a missing procedure body. A table of invalid / boundary sources from the user docs' parameter ranges must be rejected with an error.",
+   note="Trusted: TLC; the user docs as formalised. Programs of the universes are straight-line so that execution reaches every static reference. Known finding KF-C11-caller-in-library is reported as KNOWN-FINDING. call.0x<root> (phantom calls) and with_kernel after compilations are not generated (documented as history dependent / forbidden).",
+   tech="TLA+ model of the assembler's cache mechanism + declarative semantics, model-checked over all bounded histories; histories replayed on the real assembler", ref="DESIGN.md §4 C11"),
 }
 
 NOT_APPLICABLE = {
